@@ -139,7 +139,7 @@ def obligations(tier, rng):
         if name.startswith(('since-exp', 'until-exp')):
             continue
         for oname, m in dops.items():
-            if quick and oname not in ('var', 'not'):
+            if quick and oname not in ('var', 'not') and not (oname == 'once' and name.endswith('/unb')):
                 continue
             L, R = subst(l, m), subst(r, m)
             fut = refsem.has_future(L) or refsem.has_future(R)
